@@ -74,3 +74,7 @@ add("C19", "differential between the two back ends: C++ text read by a regex/bra
     "Both outputs of the same input are reduced to model records (constants, variables with fixedness, arrays, amplitudes with coefficients, spin factors, lineshapes) and compared field by field; declared-before-use is checked in both; the Python text is compiled and run.",
     "Trusted: pbt/goofit_read.py, pbt/stub/goofit.py (names and call shapes of the GooFit API only; GooFit itself is not installed). K-matrix scalars the input does not define may stay undeclared (the property is conditional).",
     "DESIGN.md 4 C19")
+add("C20", "Hypothesis-generated call histories executed in forked children vs single calls in fresh interpreters (differential); fresh interpreters across PYTHONHASHSEED values",
+    "Every step of a generated history over three reader classes, two converters and six option files is compared with the same call made alone in a fresh interpreter; cold and warm starting states; reproducibility for a fixed hash seed and multiset equality across five hash seeds.",
+    "Trusted: subprocess isolation as the definition of 'fresh'; multiset-of-lines comparison encodes 'relative order of independent declarations is ignored'. Lookup memo only in warm children.",
+    "DESIGN.md 4 C20")
